@@ -395,6 +395,14 @@ def fen_variants(rnd, fen):
     if p[2] != '-':
         r = rnd.choice(p[2])
         out.append(('one-castling-right-removed', ' '.join([p[0], p[1], p[2].replace(r, '') or '-'] + p[3:]), False))
+    if p[2] != '-':
+        # colour-symmetric changes of the rights (a hasher that does not tell whose right it is would miss them)
+        sw = ''.join(ch for ch in 'KQkq' if ch in p[2].swapcase())
+        if sw != p[2]:
+            out.append(('rights-colour-swapped', ' '.join([p[0], p[1], sw] + p[3:]), False))
+        for pair in ('Kk', 'Qq'):
+            if pair[0] in p[2] and pair[1] in p[2]:
+                out.append(('symmetric-pair-of-rights-removed', ' '.join([p[0], p[1], p[2].replace(pair[0], '').replace(pair[1], '') or '-'] + p[3:]), False))
     out.append(('side-to-move', ' '.join([p[0], 'b' if p[1] == 'w' else 'w', p[2], '-'] + p[4:]), False))
     if p[3] != '-':
         out.append(('ep-target-removed', ' '.join(p[:3] + ['-'] + p[4:]), None))      # equal iff the capture was not available
@@ -877,6 +885,21 @@ def check_C19(chk, binp):
     b12 = stream(chk, 'events + node counts + per-node trace checksum, run 1 vs run 2 (other process)', cases, impl, impl2, 'the same code, second process')
     b13 = stream(chk, 'events + node counts + per-node trace checksum, run 1 vs run 3 (other process, other order)', cases, impl, impl3, 'the same code, third process')
     bm = stream(chk, 'events + node counts + per-node trace checksum', cases, impl, model, 'extracted search model driven only by (position, seed-derived streams, depth)')
+    # the PUBLIC entry point (worker count chosen by the engine: one worker below iteration depth 3), depth limits 1..3, fresh default
+    # memory; wide-open middlegames included (many nodes in the first iterations)
+    WIDE = ['2rq1rk1/pb2bppp/1pn1pn2/3p4/3P1B2/2NBPN2/PP2QPPP/2R2RK1 w - - 0 12', 'r4rk1/1pp1qppp/p1np1n2/2b1p1B1/2B1P1b1/P1NP1N2/1PP1QPPP/R4RK1 w - - 0 10',
+            'r3k2r/p1ppqpb1/bn2pnp1/3PN3/1p2P3/2N2Q1p/PPPBBPPP/R3K2R w KQkq - 0 1', 'r2q1rk1/pP1p2pp/Q4n2/bbp1p3/Np6/1B3NBn/pPPP1PPP/R3K2R b KQ - 0 1']
+    pc = ['analyze\t%d\t%d\t%s' % (rnd.randrange(1 << 40), d, f) for f in WIDE + rnd.sample(sel, 4 if quick else 40) for d in ((3,) if quick else (1, 2, 3))]
+    pa = run_cases(binp, pc, 'C19-pub1', shards=2, timeout=1200)
+    pb = run_cases(binp, list(reversed(pc)), 'C19-pub2', shards=2, timeout=1200)[::-1]
+    pm = run_cases(MODEL, pc, 'C19-pubm', timeout=1500)
+    bp = stream(chk, 'public entry point, depth limit <= 3: events of run 1 vs run 2 (other process)', pc, pa, pb, 'the same code, second process')
+    bpm = stream(chk, 'public entry point, depth limit <= 3: events', pc, pa, pm, 'extracted search model (one worker, hasher and jitter from the seed)')
+    for i in bp[:3]:
+        chk.violation('public entry: same position, seed and depth limit gave different reports: %s -> %s / %s' % (pc[i], (pa[i] or '')[:200], (pb[i] or '')[:200]), {'kind': 'input', 'case': pc[i], 'run1': pa[i], 'run2': pb[i]}, found_input=True)
+    if not bp:
+        for i in bpm[:3]:
+            chk.violation('correspondence broken (public entry vs search model) on %s: code %s model %s' % (pc[i], (pa[i] or '')[:200], (pm[i] or '')[:200]), {'kind': 'correspondence', 'case': pc[i], 'code': pa[i], 'model': pm[i]}, found_input=False)
     for c in cases:
         chk.distinct.add(c.split('\t', 2)[2])
     chk.rule = 'single-worker searches (synchronous hook entry, fresh small artifact) of live and terminal positions at depth 1..3 (quick) / 1..4; each case run in three separate processes and in the extracted model, whose only inputs are the position, the depth and the ChaCha8 streams derived from the seed'
@@ -908,7 +931,17 @@ def check_C03(chk, binp):
         mw.append('search\t%d\t%d\t%d\t-\t%d\t%d\t%d\t-\t%s' % (rnd.randrange(1 << 30), rnd.randrange(1 << 50), rnd.choice([2, 3]), rnd.choice([2, 3, 4, 8]), 2, rnd.choice([4, 64]), chain))
     for ch in rights_pairs(rnd, 2 if quick else 20):
         mw.append('search\t%d\t%d\t3\t-\t%d\t2\t64\t-\t%s' % (rnd.randrange(1 << 30), rnd.randrange(1 << 50), rnd.choice([2, 4]), ch))
-    mimpl = run_cases(binp, mw, 'C03-mw-impl', shards=4)
+    CASTLE_BASES = ['r3k2r/pppq1ppp/2npbn2/2b1p3/2B1P3/2NPBN2/PPPQ1PPP/R3K2R w KQkq - 4 9', 'r3k2r/pppq1ppp/2npbn2/2b1p3/2B1P3/2NPBN2/PPPQ1PPP/R3K2R b KQkq - 4 9',
+                    'r1bqk2r/pppp1ppp/2n2n2/2b1p3/2B1P3/3P1N2/PPP2PPP/RNBQK2R w KQkq - 1 5']
+    RV = ['KQkq', '-', 'Kk', 'Qq', 'KQ', 'kq', 'K', 'k', 'Q', 'q']
+    for b in CASTLE_BASES[:2 if quick else 3]:
+        p = b.split(' ')
+        for r1 in RV:
+            for r2 in RV:
+                if r1 != r2 and (not quick or rnd.random() < 0.5):
+                    f1 = ' '.join([p[0], p[1], r1] + p[3:]); f2 = ' '.join([p[0], p[1], r2] + p[3:])
+                    mw.append('search\t%d\t%d\t3\t-\t1\t4\t256\t-\t%s|%s' % (rnd.randrange(1 << 30), rnd.randrange(1 << 50), f1, f2))
+    mimpl = run_cases(binp, mw, 'C03-mw-impl', shards=8)
     allc = cases + mw; alli = impl + mimpl
     bad, nlines = check_lines_legal(chk, 'C03', allc, alli)
     chk.streams.append({'name': 'every reported line legal move by move (1..8 workers)', 'against': 'extracted rules specification', 'cases': nlines, 'disagreements': len(bad)})
@@ -989,9 +1022,9 @@ def check_C04(chk, binp):
             sbad.append((c, r))
         else:
             ms = int(r.split(' ')[1]); lat.append(ms)
-            if ms > 5000 and 'nostop' not in c:
+            if ms > 15000 and 'nostop' not in c:
                 sbad.append((c, r))
-    chk.streams.append({'name': 'Stop via the public entry point at seeded instants (receiver kept/dropped, repeated, after completion): thread joins', 'against': 'the property (5 s ceiling, only to catch hangs)', 'cases': len(st), 'disagreements': len(sbad)})
+    chk.streams.append({'name': 'Stop via the public entry point at seeded instants (receiver kept/dropped, repeated, after completion): thread joins', 'against': 'the property (15 s ceiling, only to catch hangs)', 'cases': len(st), 'disagreements': len(sbad)})
     chk.evaluations += len(st)
     chk.extra['join_latency_ms'] = {'max': max(lat) if lat else None, 'median': sorted(lat)[len(lat) // 2] if lat else None}
     for c in cases + st:
@@ -1129,6 +1162,13 @@ def check_C06(chk, binp):
             unsound.append((len(cases), 'terminal evaluation claimed on material that cannot mate'))
             cases.append(c); impl.append(out); meta.append((c.split('\t')[-1], None, {}, 0, 0))
     chk.streams.append({'name': 'soundness (exact): no terminal evaluation on K v K, K+minor v K', 'against': 'insufficient material (no checkmate position exists)', 'cases': len(nmc), 'disagreements': sum(1 for u in unsound if 'cannot mate' in u[1])})
+    # the memoised solver of the driver against the extracted GameValue.win (the Coq definition of a forced mate), 3 plies
+    gsel = [f for f, n, k in wins[:25]] + nomate[:25]
+    gv = run_cases(MODEL, ['gvwin\t%s\t3' % f for f in gsel], 'C06-gv')
+    gbad = [f for f, r in zip(gsel, gv) if r is None or len(set(r.split(' '))) != 1]
+    chk.streams.append({'name': 'forced-mate solver = extracted GameValue.win (3 plies)', 'against': 'coq/spec/GameValue.v', 'cases': len(gsel), 'disagreements': len(gbad)})
+    for f in gbad[:2]:
+        chk.violation('the driver solver disagrees with GameValue.win on %s' % f, {'kind': 'correspondence', 'fen': f}, found_input=False)
     chk.streams.append({'name': 'completeness: forced mate in n plies found at depth n..n+2 (1..32 workers)', 'against': 'forced-mate solver over the extracted rules', 'cases': sum(1 for m in meta if m[1] is not None), 'disagreements': len(incomplete)})
     chk.streams.append({'name': 'one worker: reported first move keeps the forced mate', 'against': 'forced-mate solver over the extracted rules', 'cases': sum(1 for m in meta if m[1] is not None and m[4] == 1), 'disagreements': len(wrongmove)})
     chk.streams.append({'name': 'soundness: every winning terminal evaluation is a real forced mate kept by the first move', 'against': 'forced-mate solver over the extracted rules', 'cases': len(q), 'disagreements': len(unsound)})
@@ -1189,6 +1229,37 @@ def check_C17(chk, binp):
                     cases.append('search\t%d\t%d\t%d\t-\t%d\t%d\t%d\t%s\t%s' % (rnd.randrange(1 << 30), rnd.randrange(1 << 50), d, workers, 4, 256, succ, f))
                     meta.append((f, nalt, keep, mv, succ, d, workers))
     cases = cases[:400 if quick else 20000]; meta = meta[:len(cases)]
+    # the recorded position was really SEARCHED before with the same memory (so it owns deep table entries): chain Q | P where Q is the
+    # non-terminal successor of a mate-keeping first move of P and another first move also mates
+    chains = []; cmeta = []
+    for f, n, keep in wins:
+        for mv, succ in keep.items():
+            dm = KEEP_DIST.get((f, mv), 0)
+            if dm < 3:
+                continue              # successor must be non-terminal
+            alts = [KEEP_DIST[(f, a)] for a in keep if a != mv and KEEP_DIST.get((f, a), 0) > 0]
+            if not alts:
+                continue
+            nalt = min(alts)
+            for d in (max(nalt, dm), max(nalt, dm) + 1):
+                chains.append('search\t%d\t%d\t%d\t-\t1\t%d\t%d\t-\t%s|%s' % (rnd.randrange(1 << 30), rnd.randrange(1 << 50), d, 4, 256, succ, f))
+                cmeta.append((f, nalt, keep, mv, succ, d, 1))
+    chains = chains[:120 if quick else 4000]; cmeta = cmeta[:len(chains)]
+    ci = run_cases(binp, chains, 'C17-chain-impl', shards=8)
+    cm = run_cases(MODEL, chains, 'C17-chain-model')
+    cbm = stream(chk, 'chains: the recorded position was searched before with the same memory, then re-entered', chains, ci, cm, 'extracted search model')
+    cbad = []
+    for c, m, out in zip(chains, cmeta, ci):
+        ps = parse_search(out)
+        if not ps or len(ps) != 2 or not ps[1]['best']:
+            cbad.append((c, 'no report', out)); continue
+        ev, line = ps[1]['best'][-1]
+        if ev < 10000:
+            cbad.append((c, 'another first move forces mate in %d plies (depth %d) but no winning terminal evaluation (%d)' % (m[1], m[5], ev), out))
+        elif raw_coords(line[0]) == m[3]:
+            cbad.append((c, 'chose the move that re-enters a position searched earlier in the game', out))
+    chk.streams.append({'name': 'chains: re-entering a previously searched position is a draw; another mating move is chosen', 'against': 'forced-mate solver over the extracted rules', 'cases': len(chains), 'disagreements': len(cbad)})
+    chk.evaluations += len(chains)
     impl = run_cases(binp, cases, 'C17-impl', shards=8)
     single = [i for i, m in enumerate(meta) if m[6] == 1]
     model = run_cases(MODEL, [cases[i] for i in single], 'C17-model')
@@ -1215,9 +1286,13 @@ def check_C17(chk, binp):
         chk.samples += [{'case': cases[0], 'code': impl[0]}]
     for i, msg in bad[:4]:
         chk.violation('%s: %s -> %s' % (msg, cases[i], (impl[i] or '')[:200]), {'kind': 'history', 'case': cases[i], 'what': msg, 'code': impl[i]}, found_input=True)
-    if not bad:
+    for c, msg, out in cbad[:3]:
+        chk.violation('%s: %s -> %s' % (msg, c, (out or '')[:200]), {'kind': 'history', 'case': c, 'what': msg, 'code': out}, found_input=True)
+    if not bad and not cbad:
         for i in bm[:3]:
             chk.violation('correspondence broken (search model, history) on %s' % cases[i], {'kind': 'correspondence', 'case': cases[i]}, found_input=False)
+        for i in cbm[:3]:
+            chk.violation('correspondence broken (search model, chain) on %s' % chains[i], {'kind': 'correspondence', 'case': chains[i], 'code': ci[i], 'model': cm[i]}, found_input=False)
 
 # ------------------------------------------------------------------ UCI sessions (C07, C14, C18)
 import uci as U
@@ -1312,12 +1387,12 @@ def run_uci_session(binp, rnd, game, has_moves, malformed=None):
             elif nxt < 0.55:
                 # let it finish by itself (depth limit / movetime / book)
                 if len(best) < len(gos):
-                    S.wait_output(lambda l: l.startswith('bestmove'), 25.0)
+                    S.wait_output(lambda l: l.startswith('bestmove'), 90.0)
                     for l in S.steps[-1]['out']:
                         if l.startswith('bestmove'):
                             best.append(l.split(' ')[1] if len(l.split(' ')) > 1 else '')
                 if len(best) != len(gos):
-                    problems.append('no bestmove within 25 s after %r on %s' % (g, cur))
+                    problems.append('no bestmove within 90 s after %r on %s' % (g, cur))
             elif nxt < 0.65:
                 st = S.send('ucinewgame'); absorb(st, True)
             # else: the next go/position collects it
@@ -1527,7 +1602,7 @@ def c18_session(binp, pre, P, depth):
         S.send(c, settle=0.05 if c.startswith('go') else 0)
     S.send('position fen ' + P)
     S.send('go depth %d' % depth)
-    got = S.wait_output(lambda l: l.startswith('bestmove'), 40.0)
+    got = S.wait_output(lambda l: l.startswith('bestmove'), 120.0)
     S.close()
     lines = [l for st in S.steps for l in st['out']]
     scores = [float(l.split(' ')[3]) for l in got if l.startswith('info score cp')]
